@@ -213,7 +213,7 @@ def gen_chain(rng, ns, nu, max_len, max_depth, allow, st=False, inp=False):
     return out, d
 
 
-def gen_layout(rng, w, short_prob=0.0, max_eps=4, extra=5, many=None):
+def gen_layout(rng, w, short_prob=0.0, max_eps=4, extra=5, many=None, mode=None):
     """Episode layout: list of (label, length) plus an arrangement of rows."""
     n_eps = int(rng.integers(1, max_eps + 1))
     pool = [0, 1, 2, 3, 4, 5, 7, 9, 12]
@@ -230,7 +230,8 @@ def gen_layout(rng, w, short_prob=0.0, max_eps=4, extra=5, many=None):
             lens.append(int(rng.integers(max(1, w - 2), w)))
         else:
             lens.append(int(w + rng.integers(0, extra + 1)))
-    mode = rng.choice(['contig', 'contig', 'desc', 'interleave', 'shuffleblocks'])
+    drawn = rng.choice(['contig', 'contig', 'desc', 'interleave', 'shuffleblocks'])
+    mode = drawn if mode is None else mode
     order = []
     if mode == 'contig':
         for l, n in sorted(zip(labels, lens)):
